@@ -15,6 +15,14 @@ Line protocol of the `layers` component (C13).
   f/<ci>/<dfa>/<n>/<hex>{n}/<tree>           FilterLayer (case_insensitive, use_dfa) .layer(tree)
   s/<n>/<layer>{n}/<tree>                    Stack::new(tree).push(layer₁)…push(layerₙ);  layer = p/<hex> | f/<ci>/<dfa>/<n>/<hex>{n}
   r/<n>/<tree>/(<mask>/<hex>/<tree>){n}      RouterBuilder::from_recorder(default) + n × add_route;  mask = c|g|h|a
+  g/<init>/<m>/<fop>{m}/<tree>               a FilterLayer built by a chain of builder calls, then .layer(tree);
+                                             init = d (FilterLayer::default()) | f/<k>/<hex>{k} (from_patterns);
+                                             fop = a/<hex> (add_pattern) | c/<0|1> (case_insensitive) | u/<0|1> (use_dfa);
+                                             also allowed as a <layer> of `s`
+  m/g/<init>/<n>/<lstep>{n}                  ONE FilterLayer value, changed and applied several times;
+                                             lstep = <fop> | l/<tree> (.layer(tree)); the recorders produced are
+                                             collected, in order, into a Fanout
+  m/p/<hex>/<n>/<tree>{n}                    ONE PrefixLayer value applied to n recorders, collected into a Fanout
   n/<w>/<tree>{w}                            FanoutBuilder + w × add_recorder
 <kind> = c|g|h;  <unit> = `~` or the unit's canonical label;  <meta> = opaque token;
 <upd> = ci<n> | ca<n> | gi<bits> | gd<bits> | gs<bits> | hr<bits> | hm<bits>x<count>   (decimal)
@@ -23,6 +31,7 @@ deliveries: `none`, or per base recorder in ascending id `<id>=<ev>;<ev>…` joi
 order that recorder received them:
   D/<kind>/<name>/<unit>/<desc>     R/<kind>/<name>/<labels>/<meta>     U/<kind>/<name>/<labels>/<meta>/<upd>
 Received `record_many(v, n)` calls are shown as n × `hr<v>` (the property counts samples, not calls).
+In the answer to `u`, k > 1 consecutive identical events of one recorder are written once as `<ev>*k`.
 -/
 namespace MetricsVerif.Driver.Layers
 open MetricsVerif.Driver MetricsVerif.Layers
@@ -63,8 +72,33 @@ def hexTok1 : List String → Option (Str × List String)
   | t :: ts => (unhexChars t).map (·, ts)
   | [] => none
 
+def parseFOp : List String → Option (FOp × List String)
+  | "a" :: h :: ts => do pure (.add (← unhexChars h), ts)
+  | "c" :: b :: ts => do pure (.ci (← boolTok b), ts)
+  | "u" :: b :: ts => do pure (.dfa (← boolTok b), ts)
+  | _ => none
+
+def parseFInit : List String → Option (FilterCfg × List String)
+  | "d" :: ts => some (FilterCfg.dflt, ts)
+  | "f" :: k :: ts => do
+    let (pats, ts) ← takeN hexTok1 (← k.toNat?) ts
+    pure (FilterCfg.fromPatterns pats, ts)
+  | _ => none
+
+/-- `<init>/<m>/<fop>{m}` → the `FilterLayer` value after the chain of builder calls -/
+def parseFilterChain (ts : List String) : Option (FilterCfg × List String) := do
+  let (c, ts) ← parseFInit ts
+  match ts with
+  | m :: ts =>
+    let (ops, ts) ← takeN parseFOp (← m.toNat?) ts
+    pure (c.run ops, ts)
+  | [] => none
+
 def parseLayer : List String → Option (Layer × List String)
   | "p" :: h :: ts => do pure (.pfx (← unhexChars h), ts)
+  | "g" :: ts => do
+    let (c, ts) ← parseFilterChain ts
+    pure (.filter c.patterns c.ci, ts)
   | "f" :: ci :: dfa :: n :: ts => do
     let ci ← boolTok ci
     let _ ← boolTok dfa
@@ -107,6 +141,29 @@ def parseTree : Nat → List String → Option (Rec × List String)
     | "n" :: w :: ts => do
       let (rs, ts) ← takeN (parseTree fuel) (← w.toNat?) ts
       pure (.fanout rs, ts)
+    | "g" :: ts => do
+      let (c, ts) ← parseFilterChain ts
+      let (r, ts) ← parseTree fuel ts
+      pure (c.layer r, ts)
+    | "m" :: "g" :: ts => do
+      let (c, ts) ← parseFInit ts
+      let lstep (ts : List String) : Option (LStep × List String) :=
+        match ts with
+        | "l" :: ts => do
+          let (r, ts) ← parseTree fuel ts
+          pure (.layer r, ts)
+        | ts => do
+          let (o, ts) ← parseFOp ts
+          pure (.cfg o, ts)
+      match ts with
+      | n :: ts =>
+        let (steps, ts) ← takeN lstep (← n.toNat?) ts
+        pure (.fanout (c.reuse steps), ts)
+      | [] => none
+    | "m" :: "p" :: h :: n :: ts => do
+      let p ← unhexChars h
+      let (rs, ts) ← takeN (parseTree fuel) (← n.toNat?) ts
+      pure (.fanout (rs.map (prefixLayer p)), ts)
     | _ => none
 
 def treeTok (s : String) : Option Rec :=
@@ -153,6 +210,20 @@ def showDeliveries (ds : List (Nat × String)) : String :=
   "|".intercalate (ids.map (fun id =>
     s!"{id}=" ++ ";".intercalate ((ds.filter (·.1 == id)).map (·.2))))
 
+/-- run-length form of consecutive identical events: `ev`, or `ev*k` for k > 1 -/
+def rleGo : String → Nat → List String → List String
+  | cur, n, [] => [if n > 1 then s!"{cur}*{n}" else cur]
+  | cur, n, x :: xs => if x == cur then rleGo cur (n + 1) xs else (if n > 1 then s!"{cur}*{n}" else cur) :: rleGo x 1 xs
+def rle : List String → List String
+  | [] => []
+  | x :: xs => rleGo x 1 xs
+
+def showDeliveriesRle (ds : List (Nat × String)) : String :=
+  let ids := (ds.map (·.1)).eraseDups.mergeSort (fun a b => decide (a ≤ b))
+  if ids.isEmpty then "none" else
+  "|".intercalate (ids.map (fun id =>
+    s!"{id}=" ++ ";".intercalate (rle ((ds.filter (·.1 == id)).map (·.2)))))
+
 def handle (st : Option St) (args : List String) : Option (Option St × String) :=
   match args with
   | ["new", tree] => do
@@ -175,7 +246,7 @@ def handle (st : Option St) (args : List String) : Option (Option St × String) 
     let (k, h) ← s.handles[← i.toNat?]?
     let u ← updTok u
     if u.kind ≠ k then none else
-    pure (some s, showDeliveries (((h.apply u).flatMap normD).map (fun d => (d.1.1, updEvent d.1.2 d.2))))
+    pure (some s, showDeliveriesRle (((h.apply u).flatMap normD).map (fun d => (d.1.1, updEvent d.1.2 d.2))))
   | _ => none
 
 end MetricsVerif.Driver.Layers
